@@ -27,6 +27,7 @@ type GenCfg struct {
 	PVary              float64 // per leaf: a neighbour of the witness instead of the witness
 	PTestSat           float64 // per test: parameter chosen so that the witness satisfies it
 	POpts              float64 // per test: IssueCode / IssuePath / Message options
+	PEmbed             float64 // per nested struct field: the destination embeds it (anonymous field)
 	NoMsgOpts          bool    // never the Message option (every issue then reaches the execution's formatter)
 	PZogTag            float64 // per field: zog tag
 	NoCustom           bool
@@ -61,7 +62,7 @@ func DefaultCfg(mode string) GenCfg {
 	return GenCfg{
 		MaxDepth: 3, MaxFields: 4, MaxElems: 4, MaxTests: 3, Mode: mode,
 		PCatch: 0.15, PDefault: 0.12, PReq: 0.45, PPost: 0.1, PAbsent: 0.12, PJunk: 0.05, PVary: 0.25,
-		PTestSat: 0.8, POpts: 0.12, PZogTag: 0.25, PLong: 0.02, PVia: 0.12, PStructInput: 0.2,
+		PTestSat: 0.8, POpts: 0.12, PZogTag: 0.25, PLong: 0.02, PVia: 0.12, PStructInput: 0.2, PEmbed: 0.15,
 		LeafKinds: []string{KString, KString, KInt, KInt, KInt32, KInt64, KFloat32, KFloat64, KBool, KTime},
 	}
 }
@@ -730,6 +731,9 @@ func (g *Gen) GenNode(depth int, root bool) *Node {
 			g.sdepth++
 			f.Node = g.GenNode(d, false)
 			g.sdepth--
+			if f.Node.Kind == KStruct && g.p(g.Cfg.PEmbed, "embed") {
+				f.Embed = true // the destination embeds the nested struct (an anonymous field is a field like any other)
+			}
 			if g.p(g.Cfg.PZogTag, "zt") {
 				f.Tags = map[string]string{"zog": pick(g, []string{"zt_", "first-", "T"}, "ztp") + key}
 			}
